@@ -148,6 +148,21 @@ func runC03(c *Ctx) {
 	}
 	r.Floor("R03.3", 6, "or, and, not, check group, WithEdge, CheckRelationTuple")
 
+	cleanTable := map[*ssa.Function]bool{}
+	for _, t := range ts {
+		if t.Role == "unknown" || t.Role == "drain" || len(t.Unknown) > 0 {
+			continue
+		}
+		ok := true
+		for _, v := range t.Check() {
+			if v.Clause == "err" {
+				ok = false
+			}
+		}
+		if _, seen := cleanTable[t.Fn]; !seen || !ok {
+			cleanTable[t.Fn] = ok
+		}
+	}
 	// producers: every store of a non-nil Err / IsMember into a Result
 	for _, fn := range append(engineFuncs(p), p.KetoFuncs("internal/expand")...) {
 		type cellInfo struct {
@@ -221,6 +236,28 @@ func runC03(c *Ctx) {
 			}
 			name := core.FuncName(fn)
 			construct := "Result with Membership=IsMember (" + cell.Name() + ")"
+			// the two stores may lie on different paths (one variable filled per case and sent
+			// once): decide on the paths. A function that receives Results is judged by its
+			// decision table above; any other is executed from its entry.
+			if ci.errNonNil || (ci.fromUnknown && !ci.guardedNil) {
+				if cleanTable[fn] {
+					r.Discharge("R03.3", name, construct, p.Pos(ci.pos), "IsMember and a non-nil Err are stored into the same variable, but on no path together (decision table of the function)")
+					continue
+				}
+				if len(ri.Receives(fn)) == 0 && len(fn.Blocks) > 0 {
+					oc, unk := ri.Run(core.Receive{Fn: fn, Start: fn.Blocks[0]}, core.AbsRes{})
+					both := false
+					for _, o := range oc {
+						if o.Val.M == core.MI && o.Val.Err {
+							both = true
+						}
+					}
+					if !both && len(unk) == 0 {
+						r.Discharge("R03.3", name, construct, p.Pos(ci.pos), "IsMember and a non-nil Err are stored into the same variable, but on no path together (executed from the entry)")
+						continue
+					}
+				}
+			}
 			switch {
 			case ci.errNonNil:
 				invariantHolds = false
